@@ -1,84 +1,148 @@
 package c20
 
 import (
-	"fmt"
+	"pgregory.net/rapid"
+	"strings"
 	"testing"
 
 	"github.com/itchyny/gojq"
 	"verif/internal/run"
+	"verif/internal/univ"
 )
 
-func fpStr(m map[string]int) string {
-	keys := []string{"forks", "stack.data", "stack.index", "stack.limit", "scopes.data", "scopes.index", "scopes.limit", "paths.data", "paths.index", "values", "offset"}
-	s := ""
-	for _, k := range keys {
-		s += fmt.Sprintf("%s=%d ", k, m[k])
+func states(shape int) []any {
+	switch shape {
+	case 0:
+		return []any{0, 5, 7, 99}
+	case 1:
+		return []any{[]any{0, 0}, []any{5, 3}, []any{98, 999}}
 	}
-	return s
+	return []any{map[string]any{"i": 0, "a": 0}, map[string]any{"i": 5, "a": 3}, map[string]any{"i": 98, "a": 7}}
 }
 
-func TestProbe(t *testing.T) {
-	progs := []string{
-		"range(infinite)",
-		"0|while(true; .+1)",
-		"repeat(1)",
-		"0|recurse(.+1)",
-		"0|recurse(.+1; true)",
-		"limit(1000000000; repeat(1))",
-		"def f: ., (.+1|f); 0|f",
-		"def f: . as $x | $x, ($x+1|f); 0|f",
-		"def f: (.a // 1) as $x | ., (.+1|f); 0|f",
-		"def f: ., ((.a // 1) | f); 0|f",
-		"def f: ., ((try . catch .) | f); 0|f",
-		"def f: ., (first(.+1) | f); 0|f",
-		"def f: ., ([first(.+1)][0] | f); 0|f",
-		"def f: ., (isempty(empty) | f); 0|f",
-		"def f: def g: if . < 0 then . else ., (.+1|f) end; g; 0|f",
-		"def f: def g: ., (.+1|f); g; 0|f",
-		"def f: ., (.+1 | (f // 3)); 0|f",
-		"def f: ., (.+1 | (empty // f)); 0|f",
-		"def f: ., (.+1 | (null // f)); 0|f",
-		"def f: ., (.+1 | (error // f)); 0|f",
-		"def f: ., (.+1 | try f catch .); 0|f",
-		"def f: ., (.+1 | label $l | f); 0|f",
-		"def f: ., (.+1 | . as [$a] ?// $a | f); 0|f",
-		"def f: ., (.+1 | if . then f else . end); 0|f",
-		"def f: ., (.+1 | if . then f end); 0|f",
-		"def f: ., (.+1 | if false then 1 elif null then 2 elif . then f else 3 end); 0|f",
-		"def f: ., (.+1 | reduce (1,2) as $x (.; .) | f); 0|f",
-		"def f: ., (.+1 | foreach (1) as $x (.; .) | f); 0|f",
-		"def f: ., (.+1 | def h: .+0; h | f); 0|f",
-		"def f: ., (.+1 | def h: if . % 10 == 0 then . else .+1|h end; h | f); 0|f",
-		"def f: ., (.+1 | f | .); 0|f",
-		"def f: ., (.+1 | (f)); 0|f",
-		"def f: ., (.+1 | f?); 0|f",
-		"def f: (.+1 | f), .; 0|f",
+func ctrVal(shape int, v any) any {
+	switch shape {
+	case 0:
+		return v
+	case 1:
+		return v.([]any)[0]
 	}
-	for _, p := range progs {
-		code, err := run.Compile(p)
-		if err != nil {
-			t.Logf("%s: %v", p, err)
-			continue
+	return v.(map[string]any)["i"]
+}
+
+func runAll(t *testing.T, src string, in any) (outs []any, forksAfterFirst int, ok bool) {
+	p := &probe{size: 3}
+	code, err := run.Compile(strings.ReplaceAll(src, "%M%", "100"),
+		gojq.WithFunction("tick", 0, 0, func(v any, _ []any) any { return v }),
+		gojq.WithIterFunction("nat", 0, 0, func(any, []any) gojq.Iter { return &natIter{p: p} }),
+		gojq.WithInputIter(&inIter{p: p}))
+	if err != nil {
+		t.Errorf("%s: %v", src, err)
+		return nil, 0, false
+	}
+	it := code.Run(univ.Copy(in))
+	for i := 0; i < 100; i++ {
+		v, more := it.Next()
+		if !more {
+			break
 		}
-		var fps []map[string]int
-		for _, n := range []int{2000, 16000} {
-			it := code.Run(nil)
-			cnt := 0
-			for i := 0; i < n; i++ {
-				v, ok := it.Next()
+		if e, isErr := v.(error); isErr {
+			t.Errorf("%s on %s: error %v", src, univ.Show(in), e)
+			return nil, 0, false
+		}
+		if i == 0 {
+			forksAfterFirst = gojq.VerifFootprint(it)["forks"]
+		}
+		outs = append(outs, v)
+	}
+	return outs, forksAfterFirst, true
+}
+
+func TestLeaves(t *testing.T) {
+	for shape := 0; shape < 3; shape++ {
+		for _, st := range states(shape) {
+			for _, b := range balancedList(shape) {
+				outs, forks, ok := runAll(t, b, st)
 				if !ok {
-					break
+					continue
 				}
-				if _, isErr := v.(error); isErr {
-					break
+				if len(outs) != 1 || !univ.Equal(outs[0], st) || forks != 0 {
+					t.Errorf("balanced %q on %s: outs=%s forks=%d", b, univ.Show(st), univ.ShowAll(outs), forks)
 				}
-				cnt++
 			}
-			fp := gojq.VerifFootprint(it)
-			fp["cnt"] = cnt
-			fps = append(fps, fp)
+			for _, b := range stepList(shape) {
+				outs, forks, ok := runAll(t, b, st)
+				if !ok {
+					continue
+				}
+				if len(outs) != 1 || forks != 0 || !univ.Equal(ctrVal(shape, outs[0]), ctrVal(shape, st).(int)+1) {
+					t.Errorf("step %q on %s: outs=%s forks=%d", b, univ.Show(st), univ.ShowAll(outs), forks)
+				}
+			}
+			for _, b := range append(condList(shape), parityList(shape)...) {
+				outs, forks, ok := runAll(t, b, st)
+				if !ok {
+					continue
+				}
+				if len(outs) != 1 || forks != 0 {
+					t.Errorf("cond %q on %s: outs=%s forks=%d", b, univ.Show(st), univ.ShowAll(outs), forks)
+				} else if _, isB := outs[0].(bool); !isB {
+					t.Errorf("cond %q on %s: outs=%s", b, univ.Show(st), univ.ShowAll(outs))
+				}
+			}
+			for _, b := range falsyList(shape) {
+				outs, _, ok := runAll(t, b, st)
+				if !ok {
+					continue
+				}
+				for _, o := range outs {
+					if o != nil && o != false {
+						t.Errorf("falsy %q on %s: outs=%s", b, univ.Show(st), univ.ShowAll(outs))
+					}
+				}
+			}
 		}
-		same := fpStr(fps[0]) == fpStr(fps[1])
-		t.Logf("%-90s same=%v\n   n: cnt=%d %s\n  8n: cnt=%d %s", p, same, fps[0]["cnt"], fpStr(fps[0]), fps[1]["cnt"], fpStr(fps[1]))
 	}
+}
+
+func TestFixedDev(t *testing.T) {
+	for _, f := range streamForms {
+		c := progCase{Prog: f.prog, N: 2000, Mode: "out", Input: f.input}
+		msg, inf := check(c)
+		if msg != "" || !inf.NT || !inf.Identical {
+			t.Logf("STREAM %q nt=%v identical=%v turns=%d msg=%s", f.prog, inf.NT, inf.Identical, inf.Turns, msg)
+			res, _ := execute(c.Prog, c.Input, 16008, [2]int{2000, 16000}, 16000, 0, false, stepBudget(2000))
+			t.Logf("   %s\n   %s err=%v", fpText(res.OutSnap[0]), fpText(res.OutSnap[1]), res.Err)
+		}
+	}
+	for _, f := range turnForms {
+		for _, mode := range []string{"tick", "post"} {
+			p := strings.ReplaceAll(f.prog, "%T%", "| tick")
+			if mode == "post" {
+				p = strings.ReplaceAll(f.prog, " %T%", "")
+			}
+			c := progCase{Prog: p, N: 2000, Mode: mode, Input: f.input, Want: f.want}
+			msg, inf := check(c)
+			if msg != "" || !inf.NT || !inf.Identical {
+				t.Logf("TURN %s %q nt=%v identical=%v turns=%d msg=%s", mode, p, inf.NT, inf.Identical, inf.Turns, msg)
+			}
+		}
+	}
+}
+
+func TestGenDev(t *testing.T) {
+	rapid.Check(t, func(rt *rapid.T) {
+		var c progCase
+		if rapid.Bool().Draw(rt, "which") {
+			c, _ = genTailRec(rt)
+		} else {
+			c, _ = genCompose(rt)
+		}
+		c.N = 2000
+		c.Heap = false
+		msg, inf := check(c)
+		if msg != "" || !inf.NT || !inf.Identical {
+			t.Logf("%s %q nt=%v identical=%v turns=%d discard=%s msg=%s", c.Mode, c.Prog, inf.NT, inf.Identical, inf.Turns, inf.Discard, msg)
+		}
+	})
 }
